@@ -177,3 +177,30 @@ package redisemu
 //@ requires free replay: ctx.multi == held
 //@ modifies *
 //@ ensures [C09] lock.kept: held == old(held)
+
+// C20: several emulators in one process do not affect each other's clients.
+// The registry is process-wide; the commands that walk it (CLIENT LIST, CLIENT
+// KILL) go through this filter, whose visitor is only handed clients of the
+// given emulator, and CLIENT UNBLOCK treats a client of another emulator as
+// unknown.
+//@ func processEmulatorClients
+//@ prop C20 C09 C08
+//@ guards on
+//@ safetyprop none
+//@ requires free registry: forall k int64 :: haskey(clients, k) ==> clients[k] != nil && clients[k].client != nil
+//@ callback op
+//@ prop C20
+//@ requires held == old(held)
+//@ requires [C20] same.emulator: arg1 != nil && arg1.dss == dss
+//@ modifies *
+//@ ensures held == old(held)
+//@ endcallback
+//@ modifies *
+//@ ensures held == old(held)
+
+//@ func fnClientKill
+//@ prop C20
+//@ safetyprop none
+//@ requires ctx != nil && ctx.cs != nil && ctx.args != nil
+//@ modifies *
+//@ ensures [C20] lock.kept: held == old(held)
